@@ -149,6 +149,7 @@ func isDomainVar(o types.Object) bool {
 
 type domainFact struct {
 	epochArg string // resolved epoch argument of the GetDomain / domain-function call ("" if none)
+	epochKnd string // what kind of value that is (epochKind)
 	name     string // DOMAIN_X
 	version  string // leaf name of the fork-version argument when built by ComputeDomain ("" otherwise)
 	root     string // genesis-validators-root argument (for deposit: must be the zero root)
@@ -207,7 +208,7 @@ func (t *blsTracer) traceDomain(pk *packages.Package, fd *ast.FuncDecl, e ast.Ex
 		for ai, a := range x.Args {
 			if nt := namedOf(info.TypeOf(a)); nt != nil && nt.Obj().Name() == "BLSDomainType" {
 				fs := t.traceDomain(pk, fd, a, at, depth+1)
-				ep := ""
+				ep, epK := "", ""
 				if ai+1 < len(x.Args) {
 					if et := namedOf(info.TypeOf(x.Args[ai+1])); et != nil && et.Obj().Name() == "Epoch" {
 						ee := ast.Unparen(x.Args[ai+1])
@@ -222,6 +223,7 @@ func (t *blsTracer) traceDomain(pk *packages.Package, fd *ast.FuncDecl, e ast.Ex
 						}
 						if ee != nil {
 							ep = types.ExprString(ee)
+							epK = epochKind(info, fd, ee, x.Pos(), 0)
 						}
 					}
 				}
@@ -231,6 +233,7 @@ func (t *blsTracer) traceDomain(pk *packages.Package, fd *ast.FuncDecl, e ast.Ex
 					}
 					if fs[i].epochArg == "" {
 						fs[i].epochArg = ep
+						fs[i].epochKnd = epK
 					}
 				}
 				return fs
@@ -434,14 +437,25 @@ func ruleBLSVerify(c *Ctx) {
 						}
 						if hint, ok := domainEpoch[df.name]; ok && df.epochArg != "" && df.via != "ComputeDomain" {
 							ekey := site + ".epoch[" + df.name + "]"
-							good := false
-							for _, re := range hint.re {
-								if m, _ := regexp.MatchString(re, df.epochArg); m {
-									good = true
+							good, undecided := false, false
+							if allowed, has := domainEpochKinds[df.name]; has && df.epochKnd != "" {
+								for _, k := range strings.Split(allowed, "|") {
+									if k == df.epochKnd {
+										good = true
+									}
+								}
+								undecided = !good && strings.HasPrefix(df.epochKnd, "?")
+							} else {
+								for _, re := range hint.re {
+									if m, _ := regexp.MatchString(re, df.epochArg); m {
+										good = true
+									}
 								}
 							}
 							if good {
 								c.ok(ekey, src.Pos(), "fork version selected by %s", df.epochArg)
+							} else if undecided {
+								c.unm(ekey, src.Pos(), "the epoch `%s` that selects the fork version of %s is not of a kind this rule reads (the spec: %s)", df.epochArg, df.name, hint.want)
 							} else {
 								c.bad(ekey, src.Pos(), "the fork version of %s is selected by epoch `%s`; the spec selects it by %s (a message signed under the other fork version verifies across a fork boundary)", df.name, df.epochArg, hint.want)
 							}
@@ -581,7 +595,7 @@ func refusalReturn(info *types.Info, r *ast.ReturnStmt, fd *ast.FuncDecl) bool {
 			return true
 		}
 		if id.Name == "nil" {
-			if fd.Name.Name == "ProcessDeposit" {
+			if fd.Name.Name == "ProcessDeposit" || blsOwnedByProcessDeposit(fd) {
 				return true // spec: invalid proof of possession => deposit skipped, block valid
 			}
 			if len(r.Results) >= 2 {
@@ -766,6 +780,24 @@ func blsAlways(c *Ctx) {
 				c.ok(key, call.Pos(), "%s is evaluated on every path to an accepting exit", what)
 				return true
 			}
+			// a function that answers with a boolean: every path that ends without having come to the check answers
+			// false (a result variable that starts out false and is only set by the check)
+			if res := fd.Type.Results; res != nil && len(res.List) > 0 && !rightOfShortCircuit(parents, call) {
+				if bt, ok := info.TypeOf(res.List[len(res.List)-1].Type).Underlying().(*types.Basic); ok && bt.Kind() == types.Bool {
+					if outs, okW := outcomesWithout(info, fd.Body, call); okW && len(outs) > 0 {
+						allFalse := true
+						for _, o := range outs {
+							if o.ret == nil || o.decided != -1 {
+								allFalse = false
+							}
+						}
+						if allFalse {
+							c.ok(key, call.Pos(), "%s: every path that ends without evaluating it answers false", what)
+							return true
+						}
+					}
+				}
+			}
 			var under []string
 			for _, pc := range pathCondsAt(parents, call) {
 				if pc.after || pc.loop {
@@ -806,7 +838,10 @@ var blsConditional = map[string]string{"phase0.ProcessDeposit": "param,lookup", 
 func blsReviewedCondition(info *types.Info, fd *ast.FuncDecl, fn string, e ast.Expr) bool {
 	kinds, ok := blsConditional[fn]
 	if !ok {
-		return false
+		// an unexported function that only the reviewed one calls: the exception moves with the code
+		if kinds, ok = blsConditional[ownerOrSelf(fn)]; !ok {
+			return false
+		}
 	}
 	id, ok := ast.Unparen(e).(*ast.Ident)
 	if !ok {
@@ -869,4 +904,137 @@ func blsReviewedCondition(info *types.Info, fd *ast.FuncDecl, fn string, e ast.E
 		return true
 	})
 	return found
+}
+
+// rightOfShortCircuit: n stands in the right operand of a && or || (it is evaluated only sometimes even when the node
+// that holds it is).
+func rightOfShortCircuit(parents map[ast.Node]ast.Node, n ast.Node) bool {
+	for child, p := n, parents[n]; p != nil; child, p = p, parents[p] {
+		if be, ok := p.(*ast.BinaryExpr); ok && (be.Op == token.LAND || be.Op == token.LOR) && ast.Node(be.Y) == child {
+			return true
+		}
+		if _, ok := p.(ast.Stmt); ok {
+			return false
+		}
+	}
+	return false
+}
+
+// blsOwnedByProcessDeposit: fd is an unexported function of package phase0 that only ProcessDeposit (or functions it
+// owns) calls (owners.go).
+func blsOwnedByProcessDeposit(fd *ast.FuncDecl) bool {
+	return fd.Recv == nil && helperOwner["phase0."+fd.Name.Name] == "phase0.ProcessDeposit"
+}
+
+// domainEpochKinds: the kinds of value (epochKind) the specification selects each domain's fork version with. Kinds are
+// read off types, fields and callees, never off the names of locals or parameters.
+var domainEpochKinds = map[string]string{
+	"DOMAIN_VOLUNTARY_EXIT":                 "Epoch@VoluntaryExit",
+	"DOMAIN_BEACON_ATTESTER":                "Epoch@Target",
+	"DOMAIN_RANDAO":                         "s2e(state)|s2e(param)|current",
+	"DOMAIN_BEACON_PROPOSER":                "s2e(field.Slot)",
+	"DOMAIN_SELECTION_PROOF":                "s2e(param)|s2e(field.Slot)",
+	"DOMAIN_AGGREGATE_AND_PROOF":            "Epoch@Target|s2e(field.Slot)",
+	"DOMAIN_SYNC_COMMITTEE":                 "s2e(prev)|s2e(field.Slot)",
+	"DOMAIN_SYNC_COMMITTEE_SELECTION_PROOF": "s2e(param)|s2e(field.Slot)",
+	"DOMAIN_CONTRIBUTION_AND_PROOF":         "s2e(field.Slot)",
+}
+
+// epochKind: what an epoch expression is, with locals read as their last definition before pos:
+//   Epoch@<T>        the Epoch field of a value of named type T (VoluntaryExit), or of the field Target / Source of something
+//   s2e(field.Slot)  SlotToEpoch of a Slot field of a message
+//   s2e(prev)        SlotToEpoch of <slot>.Previous()
+//   s2e(state)       SlotToEpoch of the slot read from the state (a Slot() call)
+//   s2e(param)       SlotToEpoch of a parameter of the function
+//   current          the current epoch of the context / state (CurrentEpoch.Epoch, GetCurrentEpoch / CurrentEpoch calls)
+//   ?…               anything else
+func epochKind(info *types.Info, fd *ast.FuncDecl, e ast.Expr, pos token.Pos, depth int) string {
+	e = ast.Unparen(e)
+	if depth > 4 {
+		return "?deep"
+	}
+	resolve := func(id *ast.Ident) ast.Expr {
+		if paramIndex(fd, info, info.Uses[id]) >= 0 {
+			return nil
+		}
+		rhs, _ := lastDefBefore(info, fd, info.Uses[id], pos)
+		return rhs
+	}
+	switch x := e.(type) {
+	case *ast.Ident:
+		if paramIndex(fd, info, info.Uses[x]) >= 0 {
+			return "?param"
+		}
+		if rhs := resolve(x); rhs != nil {
+			return epochKind(info, fd, rhs, pos, depth+1)
+		}
+		return "?local"
+	case *ast.SelectorExpr:
+		if x.Sel.Name == "Epoch" {
+			if inner, ok := ast.Unparen(x.X).(*ast.SelectorExpr); ok {
+				switch inner.Sel.Name {
+				case "Target", "Source":
+					return "Epoch@" + inner.Sel.Name
+				case "CurrentEpoch":
+					return "current"
+				}
+			}
+			t := info.TypeOf(x.X)
+			if p, ok := t.(*types.Pointer); ok {
+				t = p.Elem()
+			}
+			if nt := namedOf(t); nt != nil {
+				return "Epoch@" + nt.Obj().Name()
+			}
+		}
+		return "?field"
+	case *ast.CallExpr:
+		if isConversion(info, x) && len(x.Args) == 1 {
+			return epochKind(info, fd, x.Args[0], pos, depth+1)
+		}
+		f := calleeFunc(info, x)
+		if f == nil {
+			return "?call"
+		}
+		switch f.Name() {
+		case "GetCurrentEpoch", "CurrentEpoch":
+			return "current"
+		case "SlotToEpoch":
+			if len(x.Args) != 1 {
+				return "?call"
+			}
+			a := ast.Unparen(x.Args[0])
+			for i := 0; i < 4; i++ {
+				id, ok := a.(*ast.Ident)
+				if !ok {
+					break
+				}
+				if paramIndex(fd, info, info.Uses[id]) >= 0 {
+					return "s2e(param)"
+				}
+				rhs := resolve(id)
+				if rhs == nil {
+					return "?s2e(local)"
+				}
+				a = ast.Unparen(rhs)
+			}
+			switch y := a.(type) {
+			case *ast.SelectorExpr:
+				if y.Sel.Name == "Slot" {
+					return "s2e(field.Slot)"
+				}
+			case *ast.CallExpr:
+				if g := calleeFunc(info, y); g != nil {
+					switch g.Name() {
+					case "Previous":
+						return "s2e(prev)"
+					case "Slot":
+						return "s2e(state)"
+					}
+				}
+			}
+			return "?s2e(other)"
+		}
+	}
+	return "?other"
 }
